@@ -37,7 +37,7 @@ def mk_peer(kb, a4, a6):
     return p
 
 
-def mk_net(peers, walk, ip_cache, services):
+def mk_net(peers, walk, ip_cache, services, svc_cache=()):
     """a Network whose fields are set directly (not through the mutators under verification)"""
     net = Network()
     for p in peers:
@@ -49,6 +49,8 @@ def mk_net(peers, walk, ip_cache, services):
         net.reverse_ip_lookup[a] = p
     for k, s in services:
         net.services_per_peer[k] = set(s)
+    for sv, ps in svc_cache:
+        net.reverse_service_lookup[sv] = list(ps)        # an ARBITRARY (possibly stale) per-service cache entry
     return net
 
 
@@ -64,6 +66,12 @@ def inv(net):
     ok = len(net.verified_by_public_key_bin) == len(vs)
     for p in vs:
         ok = ok and key(p) in net.verified_by_public_key_bin and net.verified_by_public_key_bin[key(p)] is p
+    # I_svc: a cached per-service list is COMPLETE (it may contain stale extras, which the lookup filters out): every verified
+    # peer advertising the service is in it
+    for sv, ps in net.reverse_service_lookup.items():
+        for p in vs:
+            if sv in net.services_per_peer.get(key(p), []):
+                ok = ok and any(key(c) == key(p) for c in ps)
     return ok
 
 
@@ -94,9 +102,10 @@ BASE = {"k1": BYTES, "k2": BYTES, "k3": BYTES, **ADDR4, "ip6": STR, "port6": INT
         "p1": EXPR("mk_peer(k1, UDPv4Address(ip1, port1), UDPv6Address(ip6, port6) if two_addr else None)"),
         "p2": EXPR("mk_peer(k2, UDPv4Address(ip2, port2), None)"),
         "p3": EXPR("mk_peer(k3, UDPv4Address(ip3, port3), None)"),     # a peer outside the graph (its key may equal k1/k2)
-        "svc": BYTES, "svc2": BYTES, "new3": BOOL, "ipc": STR, "portc": INT, "cache_foreign": BOOL,
+        "svc": BYTES, "svc2": BYTES, "svcc": BYTES, "new3": BOOL, "ipc": STR, "portc": INT, "cache_foreign": BOOL,
         "net": EXPR("mk_net([p1, p2][:n], [(UDPv4Address(ip3, port3), WalkableAddress(k1, svc2, new3))][:n_walk],"
-                    " [(UDPv4Address(ipc, portc), p3 if cache_foreign else p1)][:n_cache], [(k1, [svc])][:n_svc])")}
+                    " [(UDPv4Address(ipc, portc), p3 if cache_foreign else p1)][:n_cache], [(k1, [svc])][:n_svc],"
+                    " [(svcc, [p3 if cache_foreign else p1, p2][:1 + n // 2])][:n_cache])")}
 PRE = ["k1 != k2", "inv(net)", "implies(n == 0, cache_foreign)"]
 SHAPES = [{"n": n, "two_addr": t, "n_walk": w, "n_cache": c, "n_svc": s}
           for n in (0, 1, 2) for t in ((False, True) if n else (False,)) for w in (0, 1) for c in (0, 1)
@@ -145,6 +154,15 @@ contract(f"{NET}::Network.add_verified_peer", "add_verified_peer", vars=BASE, in
          ensures=["inv(net)", "net.get_verified_by_public_key_bin(k3) is p3", "any(q is p3 for q in net.verified_peers)"],
          bounded=BOUND, replay=KEYS, note="a new identity (not blacklisted) becomes verified and is indexed by key. " + BOUND)
 
+contract(f"{NET}::Network.add_verified_peer", "add_verified_peer.keeps-service-cache-complete",
+         vars={**BASE, "net": EXPR("mk_net([p1, p2][:n], [], [], [(k3, [svcc])], [(svcc, [p1][:n])])")},
+         instances=[{"n": n, "two_addr": False, "n_walk": 0, "n_cache": 0, "n_svc": 0} for n in (0, 1, 2)],
+         requires=[*PRE, "k3 != k1", "k3 != k2"],
+         call="net.add_verified_peer(p3)", raises=[],
+         ensures=["inv(net)", "any(key(r) == k3 for r in net.get_peers_for_service(svcc))"],
+         bounded=BOUND, replay=KEYS,
+         note="a peer whose services were discovered before it was verified shows up in the per-service lookup once verified")
+
 contract(f"{NET}::Network.add_verified_peer", "add_verified_peer.blacklisted-mid", vars=BASE, instances=SMALL,
          requires=[*PRE, "k3 != k1", "k3 != k2"],
          call="(net.blacklist_mids.append(p3.mid), net.add_verified_peer(p3))", raises=[],
@@ -161,8 +179,9 @@ contract(f"{NET}::Network.add_verified_peer", "add_verified_peer.known-key", var
 contract(f"{NET}::Network.get_peers_for_service", "get_peers_for_service", vars={**BASE, "q": BYTES}, instances=SHAPES,
          requires=PRE, call="net.get_peers_for_service(q)", raises=[],
          ensures=["inv(net)",
-                  "all(any(r is p for r in result) == (q in net.services_per_peer.get(key(p), [])) for p in net.verified_peers)",
-                  "all(any(r is p for p in net.verified_peers) for r in result)",
+                  # (identity of a peer is its key: a cached Peer object equal by key to a verified one counts as that peer)
+                  "all(any(key(r) == key(p) for r in result) == (q in net.services_per_peer.get(key(p), [])) for p in net.verified_peers)",
+                  "all(any(key(r) == key(p) for p in net.verified_peers) for r in result)",
                   "set(net.verified_peers) == old(set(net.verified_peers))",
                   "dict(net.services_per_peer) == old(dict(net.services_per_peer))"],
          bounded=BOUND, replay=KEYS, note="exactly the verified peers advertising the service; frame = caches only. " + BOUND)
